@@ -57,6 +57,7 @@ ASSUMPTIONS = [
     "`next` in the most-derived template and `parent` in the base-most one are not defined by the statement: never generated",
     "a dynamic inherit target that evaluates to None means 'no parent' at any level (Mako's behaviour for the rendered template, test_inheritance.test_dynamic; the statement's 'base-most ancestor' is then that level); templates behind it are never reached",
     "Template.get_def(name).render*() on a template that inherits: the def runs as called on that template (self = local = the template, parent = its inherit target, no next), the chain starting at that template; what the context holds under 'parent'/'next' is read with Context.get (documented) through the helper U",
+    "a cached def / block is stored per (template it is written in, member name) (DESIGN appendix A7; Template.cache documents one cache per template): its first output is written again by later calls through any of self/local/parent/next, in the same render and in the next render on the same lookup; an exception while it is created stores nothing",
     "<%include>: the included template is rendered as a chain of its own with no page arguments and nothing of the includer's self/local/parent/next (DESIGN appendix A6)",
     "Template objects are shared by the chains a worker renders; a mismatch is re-run on fresh objects: if it disappears there it is reported as history-dependent, with the earlier chain that provokes it as a replayable prelude when one is found among the last 400 chains (else without replay); after 12 analysed mismatches per job the rest is only counted",
     "family G: a relative inherit target is joined to the directory of the template that contains the tag and is not normalised (DESIGN appendix A6, TemplateLookup.adjust_uri's documented behaviour); templates are registered with put_template under exactly that uri, stale registrations of earlier chains are removed from the lookup's collection before each render; uri resolution proper (all mechanisms, missing files) belongs to C07",
@@ -80,6 +81,8 @@ BOUNDS = {
         "H": "L<=4, the attribute at every level absent / string / None / 0 / '' / False / [], every body chained, read through self/local/parent/next .attr",
         "I": "L<=3, member {absent, def, def calling parent} x attribute x chaining {none,next}; every level declares def card() (local.uri, self.uri, uri of context's parent/next, local/self/parent member, self/local attribute); whole page + get_def('card') and get_def(member) of every level by render_unicode() and render_context()",
         "J": "histories on one lookup: prefix [leaf] (two member names, 5 kinds each) or [leaf, mid] (one member name, chaining {none,next}) whose last level inherits from ${context['upN']}; 9 bases (each member absent/def/block) under uris of their own; 73 renders per prefix on one set of Template objects such that every ordered pair of distinct bases occurs once as consecutive renders; every render compared with the reference (= a fresh lookup)",
+        "L": "one lookup holding 32 chains (16 of two levels, 16 of three) whose relatively-naming level lives in /, /a, /a/b, /ab and names b.html, ab.html, bb.html or a/b.html - directory and target strings that coincide when concatenated, same target in different directories; 993 renders on one lookup such that every ordered pair of chains is consecutive once; each compared with the reference (= a fresh lookup)",
+        "M": "L<=3, one member name {absent, def, cached def, cached def calling parent, block, cached block, cached block calling parent} x chaining {none,next}, read through self/local/parent/next in every body; dict cache backend (mc/c06_cache.py) emptied per case; two renders on one lookup, the reference keeping (template, name) -> first output",
         "K": "an including chain of 1 (control) or 2 levels, the <%include> in any of its bodies, and an included chain of 1 or 2 levels; one member name {absent, def, block, block calling parent} in every level of both; bodies print self/local/parent member and the uri the context holds under parent and next",
         "G": "L=3: every level in a directory of depth 0/1/2, inherit target spelled absolutely or relatively to the tag's own template (L2.html, sub/L2.html, ../L2.html, ../../site/L2.html ..), decoy templates (where the spelling would lead from any other level) on/off, member {absent,def}, chaining {none,next}; L=4: the same with member def and next.body() everywhere",
         "errors": "11 positions: singles, ordered pairs x same/different name, block-in-block, def+block, anonymous pairs (one line / own lines); standalone, as base of a 2-chain, and as base whose leaf overrides the block",
@@ -94,6 +97,8 @@ BOUNDS = {
         "H": "L<=5",
         "I": "L<=4",
         "J": "as quick, the [leaf, mid] prefixes also with a second member name (4 patterns)",
+        "L": "as quick",
+        "M": "L<=4",
         "K": "adds including chains of 3 levels x included chains of 1..3 levels",
         "G": "L=3 and L=4, both with member {absent,def} and chaining {none,next}",
         "errors": "as quick",
@@ -121,7 +126,10 @@ class Runner:
     def __init__(self):
         from mako.lookup import TemplateLookup
 
-        self.lookup = TemplateLookup()
+        from mc import c06_cache
+
+        c06_cache.register()
+        self.lookup = TemplateLookup(cache_impl=c06_cache.NAME)
         self.cache = {}
         self.registered = set()
         self.compiles = 0
@@ -132,7 +140,7 @@ class Runner:
         key = (uri, text)
         t = self.cache.get(key)
         if t is None:
-            t = Template(text, uri=uri, lookup=self.lookup)
+            t = Template(text, uri=uri, lookup=self.lookup, cache_impl=self.lookup.template_args["cache_impl"])
             self.cache[key] = t
             self.compiles += 1
         return t
@@ -270,6 +278,8 @@ def chain_sig(exp, obs, al):
 def check_chain(g, chain, seed, st, R=None, twice=False):
     """g = (family, L, options, probes, def signature).  returns (ok, texts, expected, observed)"""
     fam, probes, defsig = g[0], g[3], g[4]
+    if fam == "M":
+        return check_cached(g, chain, seed, st, R or runner())
     al = ir.alphabet(seed)
     prog = ir.build_program(chain, al, probes, defsig)
     texts = ir.print_program(prog)
@@ -317,6 +327,51 @@ def check_chain(g, chain, seed, st, R=None, twice=False):
 
 
 MAX_ANALYSED = 12
+def check_cached(g, chain, seed, st, R, analyse=True):
+    """family M: the cache backend starts empty; the page is rendered twice on one lookup; the reference keeps its
+    own (template, name) -> text store across the two renders"""
+    from mc import c06_cache
+
+    fam, probes, defsig = g[0], g[3], g[4]
+    al = ir.alphabet(seed)
+    prog = ir.build_program(chain, al, probes, defsig)
+    texts = ir.print_program(prog)
+    ctx = c06_env.resolve_ctx(prog["ctx"])
+    c06_cache.STORE.clear()
+    store = {}
+    ok, exp, obs = True, None, None
+    for step in (1, 2):
+        exp, ref = ir.reference(prog, ctx, cache=store)
+        st.oracles["reference"] += 1
+        obs = R.render(texts, prog["main"], ctx, ref.callables)
+        st.evaluations += 1
+        st.transitions += ref.steps
+        st.outcomes[("M", len(chain), step, exp[0] if exp[0] != "err" else "err:" + exp[1], "cached" if store else "-")] += 1
+        if exp[0] != "dontcare" and obs != exp:
+            ok = False
+            break
+    st.traces += 1
+    c06_cache.STORE.clear()
+    if not ok:
+        case = {"kind": "chain", "family": fam, "seed": seed, "chain": [list(x) for x in chain], "probes": [list(p) for p in probes], "defsig": defsig, "files": texts, "ctx": prog["ctx"], "render": step}
+        sig = chain_sig(exp, obs, al).replace("chain:", "cached:", 1)
+        n = st.extra.get("mismatches_analysed", 0)
+        st.extra["mismatches_analysed"] = n + 1
+        if analyse and n < MAX_ANALYSED:
+            st2 = Stats()
+            check_cached(g, chain, seed, st2, Runner(), analyse=False)
+            if not st2.violations:
+                st.violation("history:unlocated " + sig, dict(case, kind="unreplayable"), "rerender: differs only on Template objects that earlier chains have used", expected=list(exp), observed=list(obs))
+                HISTORY.append((g, chain))
+                return ok, texts, exp, obs
+        if analyse and n >= MAX_ANALYSED:
+            st.violation("cached:further mismatches, not analysed", dict(case, kind="unreplayable"), "reference: a cached member does not answer with the first output of its own template", expected=list(exp), observed=list(obs))
+        else:
+            st.violation(sig, case, "reference: a cached def / block must answer with the first output of the member of the template it is written in (render %d of 2 on one lookup)" % step, expected=list(exp), observed=list(obs))
+    HISTORY.append((g, chain))
+    return ok, texts, exp, obs
+
+
 HISTORY = collections.deque(maxlen=400)  # (grid, chain) of the chains this worker rendered, most recent last
 
 
@@ -338,6 +393,8 @@ def report_order_dependent(g, chain, seed, st, R, case, exp, obs, al):
     for hg, hchain in reversed(HISTORY):
         if tried >= 60:
             break
+        if hg[0] == "M":
+            continue
         R2 = Runner()
         _e, _o, htexts = _plain_render(hg, hchain, seed, R2)
         if not (mine & set(htexts.items())):
@@ -436,22 +493,35 @@ def check_history(prefix, seq, seed, st, minimise=True):
     inherit target being base seq[k]; every render must be what the reference says (= what a fresh lookup gives).
     returns the number of renders that agreed"""
     al = ir.alphabet(seed)
-    prog, bases = j_program(prefix, al)
-    texts = ir.print_program(prog)
-    key = "up%d" % len(prefix)
+    if prefix == "L":
+        # family L: element b of seq = render chain number b of the collision program
+        prog0, mains = ir.collision_program(seed)
+        bases = []
+        key = None
+    else:
+        prog0, bases = j_program(prefix, al)
+        key = "up%d" % len(prefix)
+    texts = ir.print_program(prog0)
     R = Runner()
     for step, b in enumerate(seq):
-        ctxj = dict(prog["ctx"], **{key: bases[b]})
+        if key is None:
+            prog, ctxj = dict(prog0, main=mains[b]), dict(prog0["ctx"])
+        else:
+            prog, ctxj = prog0, dict(prog0["ctx"], **{key: bases[b]})
         ctx = c06_env.resolve_ctx(ctxj)
         exp, ref = ir.reference(prog, ctx)
         st.oracles["reference"] += 1
         obs = R.render(texts, prog["main"], ctx, ref.callables)
         st.evaluations += 1
         st.transitions += ref.steps
-        st.outcomes[("J", len(prefix) + 1, "first" if step == 0 else "later", exp[0] if exp[0] != "err" else "err:" + exp[1])] += 1
+        st.outcomes[("L" if key is None else "J", 0 if key is None else len(prefix) + 1, "first" if step == 0 else "later", exp[0] if exp[0] != "err" else "err:" + exp[1])] += 1
         if exp[0] == "dontcare" or obs == exp:
             continue
-        case = {"kind": "history", "seed": seed, "prefix": [list(s) for s in prefix], "seq": list(seq[: step + 1]), "files": {u: t for u, t in texts.items() if u not in bases or u == bases[b]}, "ctx": ctxj}
+        if key is None:
+            used = [l["uri"] for l in ref.levels]
+            case = {"kind": "history", "seed": seed, "prefix": "L", "seq": list(seq[: step + 1]), "files": {u: texts[u] for u in used}, "main": prog["main"]}
+        else:
+            case = {"kind": "history", "seed": seed, "prefix": [list(s) for s in prefix], "seq": list(seq[: step + 1]), "files": {u: t for u, t in texts.items() if u not in bases or u == bases[b]}, "ctx": ctxj}
         if Runner().render(texts, prog["main"], ctx, ref.callables) != exp:
             case["seq"] = [b]
             st.violation(chain_sig(exp, obs, al), case, "reference: rendered output / error class differs from the class-chain model", expected=list(exp), observed=list(obs))
@@ -549,6 +619,7 @@ def plan(tier, seed):
         for sh in range(ns):
             jobs.append({"kind": "chains", "tier": tier, "seed": seed, "grid": gi, "shard": sh, "nshards": ns, "size": n})
     jobs.append({"kind": "grid", "tier": tier, "seed": seed})
+    jobs.append({"kind": "collisions", "tier": tier, "seed": seed, "size": 40000})
     npre = len(j_prefixes(tier))
     nsj = 4 if tier == "quick" else 16
     for sh in range(nsj):
@@ -584,6 +655,16 @@ def _run_job(job, st):
                 st.nontrivial += 1
         st.extra["grid_cases"] = len(seen)
         st.sample({"kind": "grid", "case": list(cases[20]), "text": ir.print_file(ir.grid_file(cases[20], ir.alphabet(seed)))})
+        return st
+    if job["kind"] == "collisions":
+        nchains = len(ir.collision_program(seed)[1])
+        seq = euler_sequence(nchains)
+        done = check_history("L", seq, seed, st)
+        st.traces += 1
+        st.states += max(0, done - 1)
+        st.nontrivial += max(0, done - 1)
+        st.extra["pairs_L"] = max(0, done - 1)
+        st.sample({"family": "L", "chains on one lookup": nchains, "renders": len(seq), "files": sorted(ir.collision_program(seed)[0]["files"])[:12]})
         return st
     if job["kind"] == "pairs":
         seq = euler_sequence(len(J_BASES))
@@ -638,7 +719,7 @@ def replay(case):
     if case["kind"] == "grid":
         check_grid_case(tuple(case["case"]), case["seed"], st, case["mode"])
     elif case["kind"] == "history":
-        check_history(tuple(tuple(s) for s in case["prefix"]), list(case["seq"]), case["seed"], st, minimise=False)
+        check_history("L" if case["prefix"] == "L" else tuple(tuple(s) for s in case["prefix"]), list(case["seq"]), case["seed"], st, minimise=False)
     else:
         chain = tuple(tuple(s) for s in case["chain"])
         g = (case["family"], len(chain), None, [tuple(p) for p in case["probes"]], case.get("defsig", ""))
